@@ -74,6 +74,51 @@ def model_batch(tier):
     return "k", modelgen.load_corpus("k")
 
 
+SWEEP_PROPS = ("C01", "C02", "C03", "C04", "C05", "C06", "C16")
+
+
+def merge_results(parts):
+    """Sums the counts of several engine runs (one per harness binary) into one coverage record."""
+    out = None
+    for r in parts:
+        if out is None:
+            out = dict(r)
+            continue
+        for k, v in r.items():
+            if k in ("violations", "per_theory", "samples"):
+                out[k] = list(out.get(k, [])) + list(v)
+            elif k == "exhaustive":
+                out[k] = bool(out.get(k, True)) and bool(v)
+            elif k == "transcripts" and isinstance(v, dict):
+                out.setdefault(k, {}).update(v)
+            elif k.startswith("max_"):
+                out[k] = max(out.get(k, 0), v)
+            elif isinstance(v, bool) or not isinstance(v, (int, float)):
+                out.setdefault(k, v)
+            else:
+                out[k] = out.get(k, 0) + v
+    if out is not None and "samples" in out:
+        out["samples"] = out["samples"][:8]
+    return out or {}
+
+
+def run_sweep(pid, tier):
+    """Corpus S (systematic rule-shape sweep, lib/sgen.py) on the sharded harness. Candidates the compiler rejects
+    are only allowed where the generator marked them (`may_be_rejected`: conclusion pool S2)."""
+    theories = modelgen.load_corpus("s")
+    bins, infos = modelgen.build_models_sharded("s", theories)
+    src = dict(theories)
+    rejected = [i for i in infos if not i["ok"]]
+    unexpected = [i for i in rejected if not modelgen.read_meta(src[i["name"]]).get("may_be_rejected") or i.get("rc") != 1]
+    if unexpected:
+        raise common.MachineryError("sweep theories failed to build: " + "; ".join(f"{i['name']}: {i.get('error','')[:300]}" for i in unexpected[:5]))
+    parts = [common.run_engine(b, [pid, "--tier", tier], timeout=6 * 3600) for b in bins]
+    res = merge_results(parts)
+    res["sweep_theories"] = len(infos) - len(rejected)
+    res["sweep_candidates_rejected_by_compiler"] = len(rejected)
+    return res
+
+
 def run_models(pid, tier, seed):
     t0 = time.time()
     batch, theories = model_batch(tier)
@@ -82,11 +127,17 @@ def run_models(pid, tier, seed):
     if bad:
         raise common.MachineryError("corpus theories failed to build: " + "; ".join(f"{i['name']}: {i.get('error','')[:300]}" for i in bad[:5]))
     res = common.run_engine(binary, [pid, "--tier", tier], timeout=6 * 3600)
+    assume = MODEL_ASSUME_COMMON + MODEL_ASSUME.get(pid, [])
+    if pid in SWEEP_PROPS:
+        sw = run_sweep(pid, tier)
+        res["curated_theories"] = res.get("theories", 0)
+        res = merge_results([res, sw])
+        assume = assume + ["corpus S (corpus/s, generated by lib/sgen.py): every rule with a premise of one atom or an unordered pair of atoms over z/p/c/q/f/t/m with at most three variables, modulo renaming, each with a witness conclusion; plus a pool of conclusion shapes on a fixed premise (candidates the compiler rejects are skipped and counted)"]
     viol = res.get("violations", [])
     neg = negative_corpus(pid)
     viol += neg["violations"]
     res["negative_programs_checked"] = neg["checked"]
-    return common.finish(pid, tier, "model_checking", res, viol, t0, MODEL_ASSUME_COMMON + MODEL_ASSUME.get(pid, []), seed)
+    return common.finish(pid, tier, "model_checking", res, viol, t0, assume, seed)
 
 
 def negative_corpus(pid):
@@ -125,8 +176,15 @@ def replay_models(pid, path):
         hit = [v for v in neg["violations"] if v["replay"]["negative_program"] == case["negative_program"]]
         print(f"REPLAY-VIOLATION property={pid} {hit[0]['summary']}" if hit else f"REPLAY-OK property={pid}: the program is rejected")
         return 1 if hit else 0
-    batch, theories = model_batch("thorough" if str(case.get("theory", "")).startswith(("ga_", "gb_")) else "quick")
-    binary, _ = modelgen.build_models(batch, theories)
+    th = str(case.get("theory", ""))
+    if th.startswith("s_"):
+        theories = modelgen.load_corpus("s")
+        bins, _ = modelgen.build_models_sharded("s", theories)
+        names = [n for n, _ in theories]
+        binary = bins[names.index(th) % modelgen.NSHARDS] if th in names else bins[0]
+    else:
+        batch, theories = model_batch("thorough" if th.startswith(("ga_", "gb_")) else "quick")
+        binary, _ = modelgen.build_models(batch, theories)
     p = subprocess.run([binary, pid, "--replay", path], env=common.env_offline())
     return p.returncode
 
@@ -268,6 +326,8 @@ def run_c16(pid, tier, seed):
     if bad:
         raise common.MachineryError("corpus theories failed to build: " + "; ".join(i["name"] for i in bad))
     res = common.run_engine(binary, [pid, "--tier", tier], timeout=6 * 3600)
+    res["curated_theories"] = len(res.get("per_theory", []))
+    res = merge_results([res, run_sweep(pid, tier)])
     return common.finish(pid, tier, "exploration", res, res.get("violations", []), t0,
                          ["the flat premise and conclusions of every rule family are read from the comment the compiler emits above each rule function (the property's own observation point); the comment is cross-checked against the index fields the function reads",
                           "rules with an empty premise are outside the quantifier (n = 0 atoms; documented in to_semi_naive as executed every iteration)",
